@@ -226,6 +226,20 @@ def run_impl(case):
             snaps[n] = p.data_.copy()
             n += 1
     keep = [p for ev in events for p in ev]      # keep the objects alive (ids stay unique)
+    # the process has a history: the same filter was applied just before to the charge-conjugate sample (every PDG code negated,
+    # fresh particle objects) - whatever the library remembers between calls must not change the answer for THIS sample
+    try:
+        mirror = build_events(case)
+        with warnings.catch_warnings():
+            warnings.simplefilter("ignore")
+            for ev in mirror:
+                for p in ev:
+                    v = p.pdg
+                    if v == v:
+                        p.pdg = -int(v)
+        run_filter(case, mirror)
+    except Exception:
+        pass
     try:
         out = run_filter(case, [list(ev) for ev in events])
     except Exception as e:
